@@ -261,6 +261,8 @@ def _gen_op(o, g, f, cfg, cells, cols, models, rows_n, cell, spec_for):
     if o == 'delitem':
         if not m.cols:
             return None
+        if len(m.cols) >= 2 and g.random() < 0.2:
+            return {'op': o, 't': t, 'col': g.sample(m.cols, 2), 'how': 'list'}
         return {'op': o, 't': t, 'col': g.choice(m.cols), 'how': g.choice(['item', 'attr'])}
     if o in ('update', 'update_reject'):
         cs = g.sample(cols, g.randint(1, min(3, len(cols))))
@@ -297,16 +299,20 @@ def _gen_op(o, g, f, cfg, cells, cols, models, rows_n, cell, spec_for):
             mask = [True] * n
         else:
             mask = [g.random() < 0.5 for _ in range(n)]
-        if n == 1:
-            return None if g.random() < 0.5 else {'op': o, 't': t, 'mask': mask}
-        return {'op': o, 't': t, 'mask': mask}
+        if n == 1 and g.random() < 0.5:
+            return None
+        return {'op': o, 't': t, 'mask': mask, 'as': g.choice([None, None, 'np']) if n >= 1 else None}
     if o == 'take':
         if not m.cols:
             return None
         if n == 0:
             return {'op': o, 't': t, 'idx': []}
         k = g.choice([0, 1, 2, 3, n])
-        return {'op': o, 't': t, 'idx': [g.randrange(-n, n) for _ in range(k)]}
+        if g.random() < 0.15:
+            lo = g.randrange(0, n)
+            hi = g.randrange(lo, n)
+            return {'op': o, 't': t, 'idx': list(range(lo, hi + 1)), 'as': 'range'}
+        return {'op': o, 't': t, 'idx': [g.randrange(-n, n) for _ in range(k)], 'as': g.choice([None, None, 'np'])}
     if o == 'project':
         if not m.cols:
             return None
@@ -327,6 +333,19 @@ def _gen_op(o, g, f, cfg, cells, cols, models, rows_n, cell, spec_for):
                     fn, ar = 'const7', 0
                 items.append([c, fn, g.sample(avail, ar)])
                 ncall += 1
+        r2 = g.random()
+        if r2 < 0.2 and avail and len(cols) >= 2:
+            # a chain: the second derived column is computed from the first
+            t1, t2 = g.sample(cols, 2)
+            av = [c for c in m.cols if c not in (t1, t2)]
+            if av:
+                items = [[t2, g.choice(['rep', 'typename', 'is_none']), [t1]], [t1, g.choice(['rep', 'ident', 'typename']), [g.choice(av)]]]
+                ncall = 2
+        elif r2 < 0.3 and m.cols:
+            # a single callable that overwrites the column it reads
+            c = g.choice(m.cols)
+            items = [[c, g.choice(['rep', 'typename', 'is_none']), [c]]]
+            ncall = 1
         if faulty and ncall and n and f.random() < 0.2:
             raise_at = f.randint(1, max(1, n * ncall))
         return {'op': o, 't': t, 'items': items, 'raise_at': raise_at}
@@ -338,6 +357,11 @@ def _gen_op(o, g, f, cfg, cells, cols, models, rows_n, cell, spec_for):
         g.shuffle(free)
         if len(free) < len(olds):
             return None
+        r2 = g.random()
+        if r2 < 0.25 and all(len(c) < 6 for c in m.cols):
+            form = g.choice(['suffix', 'prefix', 'callable'])
+            mp = [[c, (c + '_s') if form == 'suffix' else ('p_' + c) if form == 'prefix' else (c + c)] for c in m.cols]
+            return {'op': o, 't': t, 'map': mp, 'via': form}
         return {'op': o, 't': t, 'map': [[old, free[i]] for i, old in enumerate(olds)], 'via': g.choice(['rename', 'relabel'])}
     if o == 'do':
         if not m.cols:
@@ -351,9 +375,10 @@ def _gen_op(o, g, f, cfg, cells, cols, models, rows_n, cell, spec_for):
                 fn = 'rep'
             else:
                 other = g.choice(rest)
+        fn2 = g.choice(['rep', 'typename']) if (g.random() < 0.2 and fn != 'str2') else None
         if faulty and n and f.random() < 0.2:
-            raise_at = f.randint(1, n * len(cs))
-        return {'op': o, 't': t, 'fn': fn, 'cols': cs, 'other': other, 'raise_at': raise_at}
+            raise_at = f.randint(1, n * len(cs) * (2 if fn2 else 1))
+        return {'op': o, 't': t, 'fn': fn, 'fn2': fn2, 'cols': cs, 'other': other, 'raise_at': raise_at}
     if o == 'minus':
         cs = g.sample(cols, g.randint(1, min(3, len(cols))))
         return {'op': o, 't': t, 'cols': cs, 'single': len(cs) == 1 and g.random() < 0.5}
@@ -489,8 +514,14 @@ def model_apply(op, models):
             r[op['col']] = v
         return ('mutate', op['t'])
     if o == 'delitem':
-        if op['col'] not in m.cols:
+        dcols = op['col'] if isinstance(op['col'], list) else [op['col']]
+        if any(c not in m.cols for c in dcols) or len(set(dcols)) != len(dcols):
             return ('skip',)
+        for c in dcols[:-1]:
+            m.cols.remove(c)
+            for r in m.rows:
+                del r[c]
+        op = dict(op, col=dcols[-1])
         m.cols.remove(op['col'])
         if not m.cols:
             m.rows = []
@@ -553,14 +584,7 @@ def model_apply(op, models):
         targets = [it[0] for it in op['items']]
         if len(set(targets)) != len(targets):
             return ('skip',)
-        ncalls = 0
-        for it in op['items']:
-            if it[1] == 'const':
-                continue
-            if any(a not in m.cols or a in targets for a in it[2]) or len(it[2]) != PURE[it[1]][0] or len(set(it[2])) != len(it[2]):
-                return ('skip',)
-            ncalls += n
-        # constants first
+        # constants first (they are visible to the callables)
         for it in op['items']:
             if it[1] == 'const':
                 vals = _as_values(it[2])[1]
@@ -575,20 +599,47 @@ def model_apply(op, models):
                     return ('skip',)
                 for r, v in zip(new.rows, col):
                     r[it[0]] = v
-        if any(it[1] != 'const' for it in op['items']) and not new.cols:
+        calls = [it for it in op['items'] if it[1] != 'const']
+        ctargets = [it[0] for it in calls]
+        for it in calls:
+            if len(it[2]) != PURE[it[1]][0] or len(set(it[2])) != len(it[2]):
+                return ('skip',)
+            if any(a not in new.cols and a not in ctargets for a in it[2]):
+                return ('skip',)
+            if len(calls) > 1 and it[0] in it[2]:
+                return ('skip',)          # self reference among several callables: the library calls that circular
+        if calls and not new.cols:
             return ('skip',)
+        # a derived column may use another derived column of the same call: those it depends on are computed first
+        order = []
+        remaining = list(calls)
+        while remaining:
+            keys = {it[0] for it in remaining}
+            if len(remaining) == 1:
+                ready = remaining
+            else:
+                ready = [it for it in remaining if not (keys & set(it[2]))]
+            if not ready:
+                return ('skip',)          # circular
+            order.extend(ready)
+            remaining = [it for it in remaining if it not in ready]
+        have = set(new.cols)
+        for it in order:
+            if any(a not in have for a in it[2]):
+                return ('skip',)          # an argument that names a column which does not exist (yet)
+            have.add(it[0])
         n2 = new.n()
-        ncalls = sum(n2 for it in op['items'] if it[1] != 'const')
-        if _will_raise(op, ncalls):
+        if _will_raise(op, n2 * len(calls)):
             return ('raise', None)
-        for it in op['items']:
-            if it[1] != 'const':
-                fn = PURE[it[1]][1]
-                vals = [fn(*[r[a] for a in it[2]]) for r in new.rows]
-                if it[0] not in new.cols:
-                    new.cols.append(it[0])
-                for r, v in zip(new.rows, vals):
-                    r[it[0]] = v
+        for it in order:
+            if any(a not in new.cols for a in it[2]):
+                return ('skip',)
+            fn = PURE[it[1]][1]
+            vals = [fn(*[r[a] for a in it[2]]) for r in new.rows]
+            if it[0] not in new.cols:
+                new.cols.append(it[0])
+            for r, v in zip(new.rows, vals):
+                r[it[0]] = v
         return ('table', new)
     if o == 'rename':
         mp = {a: b for a, b in op['map']}
@@ -596,6 +647,10 @@ def model_apply(op, models):
             return ('skip',)
         if any(b in ('data', 'columns') for b in mp.values()):
             return ('skip',)
+        if op.get('via') in ('suffix', 'prefix', 'callable'):
+            exp = {c: (c + '_s') if op['via'] == 'suffix' else ('p_' + c) if op['via'] == 'prefix' else (c + c) for c in m.cols}
+            if mp != exp:
+                return ('skip',)
         cols = [mp.get(c, c) for c in m.cols]
         return ('table', M(cols, [{mp.get(c, c): v for c, v in r.items()} for r in m.rows]))
     if o == 'do':
@@ -608,13 +663,19 @@ def model_apply(op, models):
             return ('skip',)
         if ar == 0:
             return ('skip',)
-        if _will_raise(op, n * len(cs)):
+        fn2 = op.get('fn2')
+        if fn2 is not None and (ar != 1 or PURE[fn2][0] != 1):
+            return ('skip',)
+        if _will_raise(op, n * len(cs) * (2 if fn2 else 1)):
             return ('raise', None)
         new = m.copy()
         fn = PURE[op['fn']][1]
         for c in cs:
             for r in new.rows:
                 r[c] = fn(r[c], r[other]) if ar == 2 else fn(r[c])
+            if fn2 is not None:
+                for r in new.rows:
+                    r[c] = PURE[fn2][1](r[c])
         return ('table', new)
     if o == 'minus':
         cs = op['cols']
@@ -961,6 +1022,8 @@ def real_apply(op, reals, dictable):
     if o == 'delitem':
         if op.get('how') == 'attr':
             delattr(d, op['col'])
+        elif isinstance(op['col'], list):
+            del d[list(op['col'])]
         else:
             del d[op['col']]
         return None
@@ -976,8 +1039,16 @@ def real_apply(op, reals, dictable):
     if o == 'slice':
         return d[slice(op['start'], op['stop'], op['step'])]
     if o == 'mask':
+        if op.get('as') == 'np' and len(op['mask']):
+            import numpy as np
+            return d[np.array(op['mask'], dtype=bool)]
         return d[list(op['mask'])]
     if o == 'take':
+        if op.get('as') == 'np' and len(op['idx']):
+            import numpy as np
+            return d[np.array(op['idx'], dtype=int)]
+        if op.get('as') == 'range':
+            return d[range(op['idx'][0], op['idx'][-1] + 1)]
         return d[list(op['idx'])]
     if o == 'project':
         return d[list(op['cols'])]
@@ -992,11 +1063,20 @@ def real_apply(op, reals, dictable):
         return d(**kw)
     if o == 'rename':
         mp = {a: b for a, b in op['map']}
-        return d.rename(**mp) if op.get('via') != 'relabel' else d.relabel(**mp)
+        via = op.get('via')
+        if via == 'suffix':
+            return d.relabel('_s')
+        if via == 'prefix':
+            return d.rename('p_')
+        if via == 'callable':
+            return d.relabel(lambda key: key + key)
+        return d.rename(**mp) if via != 'relabel' else d.relabel(**mp)
     if o == 'do':
         counter = [0]
         args = ['value'] + ([op['other']] if PURE[op['fn']][0] == 2 else [])
         fn = make_callable(op['fn'], args, counter, op.get('raise_at'))
+        if op.get('fn2'):
+            return d.do([fn, make_callable(op['fn2'], ['value'], counter, op.get('raise_at'))], *op['cols'])
         return d.do(fn, *op['cols'])
     if o == 'minus':
         return d - (op['cols'][0] if op.get('single') else list(op['cols']))
